@@ -30,22 +30,32 @@ func TestMain(m *testing.M) {
 			"(tcp, quic, circuit; relayed conns limited or unlimited): initial connection set (none / limited / direct / unlimited-relay / mixed / one closing at t=0; members in the CLOSING state: the transport conn "+
 			"already reports IsClosed() and opens no stream while its AcceptStream has not returned, so the swarm still lists it - closing direct next to live limited, closing direct alone, "+
 			"closing limited next to live direct, ...), per-address "+
-			"dial scripts, a timeline of inbound connections appearing, connections closing (remote or local), open connections silently entering the closing state (each isolated between "+
+			"dial scripts, per-address FORM in which the local node knows it (the two direct addresses and the relay address are each stored literally, or only behind a name that the swarm has to resolve "+
+			"with a madns mock resolver: a /dnsaddr name of its own, one /dnsaddr name shared by several addresses, a nested /dnsaddr alias, TXT records with or without /p2p/<peer>, a /dns4 host name, "+
+			"or literally AND behind the shared name), a timeline of inbound connections appearing, connections closing (remote or local), open connections silently entering the closing state (each isolated between "+
 			"two quiescence points), closing connections being reaped (remote or through the swarm) or never, and bystander-peer connections, 1-4 callers of NewStream / DialPeer / Connect "+
 			"with {allow-limited, force-direct, no-dial}, cancel instants, deadlines and dial-peer timeouts on a shared coarse time grid (equal instants race for real). Oracle = "+
 			"validity predicates over the harness' own connection history (permission; a stream at once when a non-limited conn is present; exact release instant and outcome of "+
 			"every caller that is certainly waiting (shapes A: limited-only at start, B: own relay dial produced the limited conn, C: no-dial caller seen blocked at a quiescence point); "+
 			"force-direct results; proxy-transport dial rule; Connectedness against a reference model (closing conns count as closed: limited-only => Limited, only closing => NotConnected) at every quiescence point; "+
 			"the last EvtPeerConnectednessChanged equals the model too, except that after a silent closing it may stay what it was until the harness next makes the swarm add/remove a conn of that peer; Conn.NewStream probes; "+
-			"bounded termination and a clean bubble exit after a late direct conn). Hole punching (TestHolePunch*): real "+
+			"bounded termination and a clean bubble exit after a late direct conn). "+
+			"Real stack (TestRealStackRelay): three real BasicHosts over real swarms in one bubble (A, the peer B, a real circuit-v2 relay R with B's reservation) joined by the real TCP transport over in-memory pipes, "+
+			"real upgrader (private network / pre-shared key ON or OFF on all nodes, Noise or TLS, yamux) and the real circuit client; relay with limits or without, circuit duration limit, link latency, B with or without a direct address, "+
+			"B's addresses known to A literally or behind /dnsaddr / /dns4 names, 2-5 sequential ops (A/B host.NewStream, A DialPeer/Connect with {allow-limited, force-direct, no-dial} and deadlines, B dialling A directly - also while "+
+			"an A-side NewStream waits - closing the direct or relayed conns at either end). Ground truth by configuration (relayed = /p2p-circuit in the conn's addresses; limited = relayed through the relay WITH limits); at every "+
+			"settled point on BOTH ends: Stat().Limited of every conn, Connectedness and the last connectedness event against the model, Conn.NewStream refusal on limited conns; per call: permission rule, force-direct never returns a relayed conn "+
+			"(and fails without any direct route), a waiter without any possible direct conn returns exactly at its deadline with an error, a waiter is released by a direct conn arriving in time. Hole punching (TestHolePunch*): real "+
 			"holepunch.Service on a recording host.Host wrapper around the real BasicHost; generated DCUtR dialogues on relayed / direct, inbound / outbound conns and DirectConnect "+
 			"with scripted dial outcomes and inbound direct conns. Non-trivial = a waiter that is certainly blocked sees the connection set change (or another caller return) before "+
 			"it is released, or a mixed limited/non-limited set exists when a caller starts, or a closing-but-listed conn stands next to a live conn of the other kind (limited vs non-limited) "+
-			"at a quiescence point; for hole punching: a dialogue that reaches the dial stage with relay addresses mixed in, "+
+			"at a quiescence point; real stack: a limited relayed conn between A and B was judged at a settled point, or a caller certainly waited; for hole punching: a dialogue that reaches the dial stage with relay addresses mixed in, "+
 			"or a stream on a non-relayed conn. Distinct = distinct abstract timeline incl. outcomes.",
 		"scripted transports stand in for real transports/relays; Stat().Limited and Transport().Proxy() are set by the harness (limited implies proxy)",
 		"events at the same virtual instant race for real; the oracle only judges callers whose stage is certain from the recorded history and accepts either order otherwise",
 		"dial orchestration itself (dedup, caps, back-off) is C05's subject and is not re-asserted here",
+		"names are resolved by go-multiaddr-dns over a mock zone (no network); the scripted circuit transport lets the swarm resolve /dns4 relay addresses (the real client defers that to the inner dial: covered by TestRealStackRelay)",
+		"real stack: only the socket syscalls are replaced (internal/memtpt); all three nodes share the pre-shared key or none has one (mismatched keys are not C12's subject); with link latency a settled point is reached by letting 50 latencies pass; with zero latency concurrent dials (direct vs relay address) complete in the same virtual instant and race for real: either result is accepted",
 		"the closing state is produced by the harness' conn wrapper (IsClosed()=true, OpenStream fails, AcceptStream still blocked); it stands for the window between a transport noticing the close and the swarm's accept loop reaping the conn, held open for arbitrary virtual time",
 	)
 	hx.Main(m)
@@ -59,6 +69,8 @@ type addrScript struct {
 	out     scripted.Outcome
 	delay   time.Duration
 	limited bool // relay address only: the relayed conn is limited
+	via     via  // how the local node knows the address: literally, or behind a /dnsaddr or /dns4 name
+	txtPeer bool // dnsaddr forms: the TXT record ends in /p2p/<peer>
 }
 
 func (a addrScript) String() string {
@@ -68,6 +80,12 @@ func (a addrScript) String() string {
 	s := fmt.Sprintf("%s/%v", a.out, a.delay)
 	if a.limited {
 		s += "/L"
+	}
+	if a.via != viaLiteral {
+		s += "/" + a.via.String()
+		if a.txtPeer {
+			s += "+p2p"
+		}
 	}
 	return s
 }
@@ -214,6 +232,7 @@ func drawAddrScript(rt *rapid.T, label string, relay bool) addrScript {
 	if relay {
 		a.limited = rapid.IntRange(0, 3).Draw(rt, label+"-limited") != 0
 	}
+	a.via, a.txtPeer = drawVia(rt, label)
 	return a
 }
 
@@ -250,7 +269,7 @@ func drawScenario(rt *rapid.T, host bool) *scenario {
 	}
 	sc.r = drawAddrScript(rt, "relay", true)
 	if theme == 2 && rapid.IntRange(0, 5).Draw(rt, "relay-ok") > 0 {
-		sc.r = addrScript{present: true, out: scripted.Succeed, limited: true, delay: ms(rapid.SampledFrom([]int{0, 50, 300, 1000}).Draw(rt, "relay-ok-delay"))}
+		sc.r = addrScript{present: true, out: scripted.Succeed, limited: true, delay: ms(rapid.SampledFrom([]int{0, 50, 300, 1000}).Draw(rt, "relay-ok-delay")), via: sc.r.via, txtPeer: sc.r.txtPeer}
 		if sc.d1.present && sc.d1.out == scripted.Succeed && sc.d1.delay <= sc.r.delay+500*time.Millisecond && rapid.Bool().Draw(rt, "d1-slower") {
 			sc.d1.delay = 3 * time.Second
 		}
@@ -445,6 +464,7 @@ type run struct {
 	// still be the (then correct) one recorded here.
 	stale  map[peer.ID]network.Connectedness
 	judged bool
+	zone   *zone
 }
 
 // listed: the swarm lists the connection.
@@ -527,7 +547,7 @@ func (r *run) fail(format string, args ...any) {
 		cs = append(cs, s)
 	}
 	r.w.drainEvents()
-	r.rt.Fatalf("%s\nscenario: %s\ncallers:%s\nconns:%s\ndials:%s\nevents: %v", fmt.Sprintf(format, args...), r.sc, strings.Join(cs, ""), r.w.describeConns(), r.w.describeDials(), r.w.evtLog)
+	r.rt.Fatalf("%s\nscenario: %s\nknown as: %s\ncallers:%s\nconns:%s\ndials:%s\nevents: %v", fmt.Sprintf(format, args...), r.sc, r.zone, strings.Join(cs, ""), r.w.describeConns(), r.w.describeDials(), r.w.evtLog)
 }
 
 func (r *run) script(addr ma.Multiaddr, p peer.ID, n int) scripted.Script {
@@ -721,18 +741,27 @@ func runScenario(t *testing.T, rt *rapid.T, name string, sc *scenario) {
 	r := &run{rt: rt, sc: sc, labels: map[string]bool{}, stale: map[peer.ID]network.Connectedness{}}
 	var abstract []string
 	hx.Bubble(t, rt, func() {
-		w := newWorld(worldOpts{host: sc.host, negTimeout: sc.negTimeout, script: r.script}, rt.Fatalf)
-		r.w = w
-		defer w.close()
-		ps := w.sw.Peerstore()
-		for _, a := range []struct {
+		// what the local node knows about the peer: addresses as they are dialled, or names
+		// (/dnsaddr, /dns4) that only resolve to them
+		z := newZone()
+		for k, a := range []struct {
 			s addrScript
 			a ma.Multiaddr
 		}{{sc.d1, addrD1}, {sc.d2, addrD2}, {sc.r, addrR}} {
 			if a.s.present {
-				ps.AddAddr(peerP, a.a, time.Hour)
+				z.know(peerP, k, a.a, a.s.via, a.s.txtPeer)
 			}
 		}
+		rslv, err := z.resolver()
+		if err != nil {
+			rt.Fatalf("resolver: %v", err)
+		}
+		r.zone = z
+		w := newWorld(worldOpts{host: sc.host, negTimeout: sc.negTimeout, script: r.script, resolver: rslv}, rt.Fatalf)
+		r.w = w
+		defer w.close()
+		ps := w.sw.Peerstore()
+		ps.AddAddrs(peerP, z.entries, time.Hour)
 		if sc.host {
 			ps.AddProtocols(peerP, "/test/1")
 		}
@@ -1315,9 +1344,35 @@ func (r *run) judge() {
 	}
 	if circuitDials > 0 {
 		r.labels["relay-address-dialled"] = true
+		if sc.r.via.resolved() && sc.r.via != viaBoth {
+			r.labels["relay-address-dialled:found-by-resolving-"+sc.r.via.String()] = true
+		}
+	}
+	for _, d := range dials {
+		if d.Peer == peerP && (d.Addr.Equal(addrD1) && sc.d1.via.resolved() && sc.d1.via != viaBoth || d.Addr.Equal(addrD2) && sc.d2.via.resolved() && sc.d2.via != viaBoth) {
+			r.labels["direct-address-dialled:found-by-resolving-a-name"] = true
+		}
+	}
+	if sc.r.present {
+		r.labels["relay-addr-known-"+sc.r.via.String()] = true
 	}
 	if allForce && sc.r.present {
 		r.labels["all-callers-force-direct-with-relay-addr-known"] = true
+		if sc.r.via.resolved() {
+			r.labels["all-callers-force-direct-with-relay-addr-behind-name"] = true
+		}
+	}
+	if sc.r.present && sc.r.via.resolved() {
+		for _, cr := range dialers {
+			if !cr.spec.force || cr.spec.api != apiDialPeer {
+				continue
+			}
+			if cr.err == nil {
+				r.labels["relay-addr-behind-name:force-direct-dial-got-direct"] = true
+			} else {
+				r.labels["relay-addr-behind-name:force-direct-dial-failed"] = true
+			}
+		}
 	}
 	if len(dialers) > 0 && !allForce && sc.r.present {
 		for _, cr := range dialers {
